@@ -2,8 +2,10 @@ package main
 
 import (
 	"fmt"
+	"go/constant"
 	"go/token"
 	"go/types"
+	"sort"
 	"strings"
 
 	"golang.org/x/tools/go/ssa"
@@ -11,7 +13,7 @@ import (
 
 func init() {
 	register("C05",
-		"each relational operator applies the right predicate to the three-way decimal comparison (truth vector over Cmp's {-1,0,+1}), with operands in source order and by numeric value (Cmp, not a total-order or text comparison); strings use Go's byte-wise operator of the same name; both equalities are Cmp==0 / Go == per kind; `!=` and `!==` are the boolean negations of the very functions `==` and `===` return; `===` compares only behind an identical-dynamic-type gate, with null===null true and false as fall-through. On the string arm every return is that Go == (no numeric coercion of numeric-looking strings).",
+		"each relational operator applies the right predicate to the three-way decimal comparison (truth vector over Cmp's {-1,0,+1}), with operands in source order and by numeric value (Cmp, not a total-order or text comparison); strings use Go's byte-wise operator of the same name; both equalities are Cmp==0 / Go == per kind; `!=` and `!==` are the boolean negations of the very functions `==` and `===` return; `===` compares only behind an identical-dynamic-type gate, with null===null true and false as fall-through. On the string arm every return is that Go == (no numeric coercion of numeric-looking strings). Two null-like operands are loosely equal; a guard in front of the comparison refuses the same operands for an operator and its negation, and only two values of one uncomparable dynamic type; numbers enter and are handed on exactly.",
 		"trichotomy and representation-independence as value laws of (*Big).Cmp itself, NaN cases, and the coercions of mixed-kind `==`.",
 		runC05)
 }
@@ -79,6 +81,11 @@ func runC05(c *Ctx) {
 	// "regardless of how a number is written": the number a literal or a data value denotes enters exactly (shared
 	// with C04)
 	c04NoFloat(c, arms, "C05.numbers-enter-exactly")
+	// ... and stays exact on its way between the nodes: the value normaliser hands a number on unchanged, or as a
+	// copy that keeps every digit (shared with C16)
+	if d := c.EvalDispatcher(); d != nil {
+		c16NormaliseAs(c, d, "C05.numbers-are-handed-on-exactly", false)
+	}
 	// "no matter how they are written": a number keeps its exact value through the sign operators (a negation done in a
 	// 16-digit context makes distinct negative numbers equal) and a literal's text is the text as written
 	if parms, und := c.prefixDispatch(); und == "" {
@@ -221,6 +228,8 @@ func c05EqualityAs(c *Ctx, arms map[int64]OpArm, looseNullRule string) {
 		negated bool
 		inOrder bool
 		ok      bool
+		guards  string // the module functions whose error is handed on in front of the comparison (sorted names)
+		gfns    []*ssa.Function
 	}
 	analyse := func(h *ssa.Function) retFn {
 		var out retFn
@@ -229,10 +238,41 @@ func c05EqualityAs(c *Ctx, arms map[int64]OpArm, looseNullRule string) {
 		}
 		ops := operandParams(h)
 		n := 0
+		var guards []string
 		instrs(h, func(b *ssa.BasicBlock, i int, in ssa.Instruction) {
 			ret, isRet := in.(*ssa.Return)
 			if !isRet {
 				return
+			}
+			// `if err := check(op, v1, v2); err != nil { return nil, err }`: operands the comparison cannot take are
+			// refused first - by the same function in the positive and in the negative handler (compared below)
+			if len(ret.Results) == 2 && isNilConst(ret.Results[0]) {
+				if rs := plainOrigins.Roots(ret.Results[1]); len(rs) == 1 && rs[0].Kind == "call" && rs[0].Fn != nil && c.inModule(rs[0].Fn) && len(rs[0].Path) == 0 {
+					if t := b.Idom(); t != nil && len(t.Instrs) > 0 {
+						if iff, isIf := t.Instrs[len(t.Instrs)-1].(*ssa.If); isIf && len(b.Preds) == 1 && t.Succs[0] == b {
+							if bo, isB := iff.Cond.(*ssa.BinOp); isB && bo.Op == token.NEQ && (isNilConst(bo.Y) || isNilConst(bo.X)) {
+								name := c.P.FuncKey(rs[0].Fn)
+								if k := strings.Index(name, "__k"); k > 0 {
+									name = name[:k] // a copy specialised for its constant arguments (constspec.go)
+								}
+								guards = append(guards, name)
+								out.gfns = append(out.gfns, rs[0].Fn)
+								return
+							}
+						}
+					}
+				}
+				// the same refusal written out (the helper expanded): an error made on the spot; its format text
+				// stands for it in the comparison of the two handlers
+				if rs := plainOrigins.Roots(ret.Results[1]); len(rs) == 1 && rs[0].Kind == "call" && rs[0].Fn != nil && rs[0].Fn.String() == "fmt.Errorf" {
+					if call, isCall := rs[0].V.(*ssa.Call); isCall && len(call.Call.Args) > 0 {
+						if k, isK := call.Call.Args[0].(*ssa.Const); isK && k.Value != nil && k.Value.Kind() == constant.String {
+							guards = append(guards, "error:"+constant.StringVal(k.Value))
+							out.gfns = append(out.gfns, h) // judged where it stands: in the handler itself
+							return
+						}
+					}
+				}
 			}
 			n++
 			v := ret.Results[0]
@@ -265,6 +305,8 @@ func c05EqualityAs(c *Ctx, arms map[int64]OpArm, looseNullRule string) {
 		if n != 1 {
 			out.ok = false
 		}
+		sort.Strings(guards)
+		out.guards = strings.Join(guards, ",")
 		return out
 	}
 	// an arm that calls the equality function directly from the dispatcher (wrapper inlined):
@@ -335,10 +377,20 @@ func c05EqualityAs(c *Ctx, arms map[int64]OpArm, looseNullRule string) {
 			c.R.Check(rn, pr.name, pr.pos.Pos, false, "the handlers of "+pr.name+" must each return (the negation of) one call of an equality function")
 			continue
 		}
-		c.R.Check(rn, pr.name, pr.neg.Pos, a.fn == b.fn && !a.negated && b.negated && a.inOrder && b.inOrder,
-			fmt.Sprintf("`%s`: positive handler returns %s%s, negative handler returns %s%s, operands in order %v/%v; the negative operator must be exactly the negation of the positive one", pr.name, neg(a.negated), c.P.FuncKey(a.fn), neg(b.negated), c.P.FuncKey(b.fn), a.inOrder, b.inOrder))
+		c.R.Check(rn, pr.name, pr.neg.Pos, a.fn == b.fn && !a.negated && b.negated && a.inOrder && b.inOrder && a.guards == b.guards,
+			fmt.Sprintf("`%s`: positive handler returns %s%s, negative handler returns %s%s, operands in order %v/%v, operands refused first by [%s] / [%s]; the negative operator must be exactly the negation of the positive one", pr.name, neg(a.negated), c.P.FuncKey(a.fn), neg(b.negated), c.P.FuncKey(b.fn), a.inOrder, b.inOrder, a.guards, b.guards))
 	}
 	c.R.Floor(rn, 2)
+	// what such a guard may refuse: only what Go's == cannot take
+	seenG := map[*ssa.Function]bool{}
+	for _, arm := range []OpArm{eq, ne, seq, sne} {
+		for _, g := range analyseArm(arm).gfns {
+			if !seenG[g] {
+				seenG[g] = true
+				c05RefusalGuard(c, g)
+			}
+		}
+	}
 
 	const re = "C05.equality-predicate"
 	loose, strict := analyseArm(eq).fn, analyseArm(seq).fn
@@ -765,4 +817,108 @@ func c05LooseNull(c *Ctx, loose *ssa.Function, rule string) {
 		b, ok := boolResult(r, 0)
 		c.R.Check(rule, "loose:null-null:"+k, c.P.Pos(loose.Pos()), ok && b, "two null-like operands (null, a missing entry, a typed nil pointer) must be loosely equal although they are not identical values: the null test must stand beside the identity test (left operand: "+k+")")
 	}
+}
+
+// c05RefusalGuard: a function whose error an equality handler hands on before comparing (`checkComparable(v1, v2)`)
+// may refuse only operands on which Go's == panics: two values of one and the same dynamic type that is not
+// comparable. Every error it makes must therefore sit behind the identity of the two operands' reflect.Types (operands
+// of different types - also of the same kind, []interface{} against []int - are simply unequal), and no method may be
+// called on a reflect.Type that can be the nil Type of a null operand (`null === null` would fail).
+func c05RefusalGuard(c *Ctx, g *ssa.Function) {
+	const rule = "C05.refusal-only-where-comparison-panics"
+	if len(g.Blocks) == 0 {
+		return
+	}
+	var ops []*ssa.Parameter
+	for _, p := range g.Params {
+		if _, isI := p.Type().Underlying().(*types.Interface); isI {
+			ops = append(ops, p)
+		}
+	}
+	if len(ops) != 2 {
+		return
+	}
+	typeOf := func(v ssa.Value) *ssa.Parameter {
+		for _, rt := range plainOrigins.Roots(v) {
+			if rt.Kind == "call" && rt.Fn != nil && rt.Fn.String() == "reflect.TypeOf" && len(rt.Path) == 0 {
+				if call, ok := rt.V.(*ssa.Call); ok {
+					a := stripIface(call.Call.Args[0])
+					for _, p := range ops {
+						if a == ssa.Value(p) {
+							return p
+						}
+					}
+				}
+			}
+		}
+		return nil
+	}
+	// edges on which a fact holds
+	type edge struct {
+		b *ssa.BasicBlock
+		k int
+	}
+	var identity []edge
+	nonNil := map[ssa.Value][]edge{}
+	for _, b := range g.Blocks {
+		if len(b.Instrs) == 0 {
+			continue
+		}
+		iff, ok := b.Instrs[len(b.Instrs)-1].(*ssa.If)
+		if !ok {
+			continue
+		}
+		bo, ok := iff.Cond.(*ssa.BinOp)
+		if !ok || (bo.Op != token.EQL && bo.Op != token.NEQ) {
+			continue
+		}
+		eqEdge := 0
+		if bo.Op == token.NEQ {
+			eqEdge = 1
+		}
+		px, py := typeOf(bo.X), typeOf(bo.Y)
+		switch {
+		case px != nil && py != nil && px != py:
+			identity = append(identity, edge{b, eqEdge})
+		case px != nil && isNilConst(bo.Y):
+			nonNil[bo.X] = append(nonNil[bo.X], edge{b, 1 - eqEdge})
+		case py != nil && isNilConst(bo.X):
+			nonNil[bo.Y] = append(nonNil[bo.Y], edge{b, 1 - eqEdge})
+		}
+	}
+	holdsAt := func(es []edge, at *ssa.BasicBlock) bool {
+		for _, e := range es {
+			t := e.b.Succs[e.k]
+			if len(t.Preds) == 1 && (t == at || t.Dominates(at)) {
+				return true
+			}
+		}
+		return false
+	}
+	n := 0
+	instrs(g, func(b *ssa.BasicBlock, i int, in ssa.Instruction) {
+		switch x := in.(type) {
+		case *ssa.Return:
+			if len(x.Results) == 0 {
+				return
+			}
+			fresh := false
+			for _, rt := range plainOrigins.Roots(x.Results[len(x.Results)-1]) {
+				if rt.Kind == "call" && rt.Fn != nil && (rt.Fn.String() == "fmt.Errorf" || rt.Fn.String() == "errors.New") {
+					fresh = true
+				}
+			}
+			if !fresh {
+				return
+			}
+			n++
+			c.R.Check(rule, fmt.Sprintf("%s:refusal#%d:identical-types", c.P.FuncKey(g), n), c.P.InstrPos(in), holdsAt(identity, b), "the operands are refused although their dynamic types have not been found identical (reflect.TypeOf(a) == reflect.TypeOf(b)): Go's == panics only for two values of the same uncomparable type; operands of different types, also of the same kind, are just unequal")
+		case *ssa.Call:
+			if !x.Call.IsInvoke() || typeOf(x.Call.Value) == nil {
+				return
+			}
+			n++
+			c.R.Check(rule, fmt.Sprintf("%s:%s-on-type#%d:not-nil", c.P.FuncKey(g), x.Call.Method.Name(), n), c.P.InstrPos(in), holdsAt(nonNil[x.Call.Value], b), "a method is called on the reflect.Type of an operand without a test that it is not nil: the Type of a null operand is nil, so `null === null` fails instead of being true")
+		}
+	})
 }
